@@ -67,7 +67,42 @@ def rule_E1(prog, fixture=False):
             return bool(e.get("nothrow"))
         return False
 
-    supp = {} if fixture else load_suppressions()
+    supp_all = {} if fixture else load_suppressions()
+    supp = {k: v for k, v in supp_all.items() if " -> " not in k}
+    # edge suppressions "caller -> callee": the call cannot take the throwing path (reason in the file)
+    edge_supp = {}
+    for k, v in supp_all.items():
+        if " -> " in k:
+            a, b = k.split(" -> ", 1)
+            edge_supp[(a.strip(), b.strip())] = v
+    used_edges = set()
+
+    def qn_of(u):
+        g = prog.functions.get(u)
+        if g is None:
+            return None
+        q, depth, out = g.qn, 0, []
+        for ch in q:                      # drop template arguments: base_array<double>::operator[] -> base_array::operator[]
+            if ch == "<" and not "".join(out).endswith("operator"):
+                depth += 1
+            elif ch == ">" and depth > 0:
+                depth -= 1
+            elif depth == 0:
+                out.append(ch)
+        return "".join(out)
+    _orig_resolved = prog.resolved_callees
+
+    def resolved(u):
+        out = []
+        cq = qn_of(u)
+        for (c, l) in _orig_resolved(u):
+            k = (cq, qn_of(c))
+            if cq is not None and k in edge_supp:
+                used_edges.add(k)
+                continue
+            out.append((c, l))
+        return out
+    prog_view = _ProgView(prog, resolved)
     used_supp = set()
     n_noexcept = 0
     for f in sorted(prog.functions.values(), key=lambda f: (f.file, f.line, f.name)):
@@ -80,7 +115,7 @@ def rule_E1(prog, fixture=False):
             continue        # implicit specs of defaulted members are computed from their callees
         n_noexcept += 1
         # BFS over callees; an intermediate non-throwing function stops propagation (it is its own obligation)
-        path = _find_throw_path(prog, f.usr, throwers, nothrow)
+        path = _find_throw_path(prog_view, f.usr, throwers, nothrow)
         rel = prog.rel(f.file)
         props = ["C05"] + (["C04"] if (C04_FILES.search(rel) or (fixture and "slice" in f.name)) else [])
         key = "E1:" + fkey(f)
@@ -89,7 +124,7 @@ def rule_E1(prog, fixture=False):
         if path is None:
             res.add(key, DISCHARGED, where, what, "no library throw site reachable", func=f.name, extra={"props": props})
             continue
-        paths = _all_throw_paths(prog, f.usr, throwers, nothrow)
+        paths = _all_throw_paths(prog_view, f.usr, throwers, nothrow)
         parts = []
         chain = []
         for pth in paths[:6]:
@@ -110,11 +145,22 @@ def rule_E1(prog, fixture=False):
                     func=f.name, extra={"props": props, "suppressed": True})
             continue
         res.add(key, VIOLATED, where, what, reason, func=f.name, path=chain, extra={"props": props})
-    for sym in supp:
-        if sym not in used_supp:
-            res.broken.append("stale E1 suppression: %s no longer reaches a throw site (remove it from rules/e1_suppressions.txt)" % sym)
+    # a suppression that no longer matches anything is noted in the evidence; it cannot hide a report, so it is not an error
+    res.stats["unused_suppressions"] = sorted([sym for sym in supp if sym not in used_supp] + ["%s -> %s" % k for k in edge_supp if k not in used_edges])
+    res.stats["suppressed_edges"] = sorted("%s -> %s" % k for k in used_edges)
     res.stats["noexcept_functions"] = n_noexcept
     return res
+
+
+class _ProgView:
+    """the program with some call edges removed (edge suppressions)"""
+
+    def __init__(self, prog, resolved):
+        self._p = prog
+        self.resolved_callees = resolved
+
+    def __getattr__(self, name):
+        return getattr(self._p, name)
 
 
 def _ext_name(usr):
